@@ -539,7 +539,7 @@ func Recv[T any](site int, owner any, ch <-chan T) (v T, ok bool) {
 		select {
 		case v, ok = <-ch:
 		default:
-			panic("vt: recv not ready")
+			panic(fmt.Sprintf("vt: recv not ready (episode seed %d %s, event %d)", S.cfg.Seed, S.cfg.Strategy, len(S.Log)))
 		}
 		if ok {
 			return "1 " + digest(v)
@@ -562,14 +562,14 @@ func Select2[A, B any](site int, a <-chan A, b <-chan B) (idx int, va A, vb B, o
 			select {
 			case va, ok = <-a:
 			default:
-				panic("vt: select not ready")
+				panic(fmt.Sprintf("vt: select not ready (episode seed %d %s, event %d)", S.cfg.Seed, S.cfg.Strategy, len(S.Log)))
 			}
 			idx = 0
 		} else {
 			select {
 			case vb, ok = <-b:
 			default:
-				panic("vt: select not ready")
+				panic(fmt.Sprintf("vt: select not ready (episode seed %d %s, event %d)", S.cfg.Seed, S.cfg.Strategy, len(S.Log)))
 			}
 			idx = 1
 		}
